@@ -321,7 +321,12 @@ def rule_reneg(ctx):
                       f.loc(early[0].ast) if early else f.loc())
     fm = ctx.index.func(TLSREC + "_getMsg")
     gm = ctx.an.cfg(fm)
-    t = [x for x in gm.nodes if x.kind == "test" and norm(x.expr) == "reneg and self.session"]
+    # the test guarding the no_renegotiation answer (whatever the renegotiation condition is called)
+    al_ = [n for n in gm.nodes if n.kind == "stmt" and "AlertDescription.no_renegotiation" in norm(n.ast)]
+    t = [x for x in gm.nodes if x.kind == "test" and "self.session" in norm(x.expr) and al_
+         and any(a.id in gm.reach(gm.succ_on(x, "T"), follow_exc=False) for a in al_)
+         and not any(a.id in gm.reach(gm.succ_on(x, "F"), blocked=consumes_of(gm, "_getNextRecord"), follow_exc=False) for a in al_)]
+    t = sorted(t, key=lambda x: -x.line)[:1]
     ok = False
     if t:
         seen = gm.reach(gm.succ_on(t[0], "T"), follow_exc=False)
